@@ -211,3 +211,54 @@ def flag_paths(body, dag, start, stop_blocks, cut):
         else:
             for s2 in body.succ(b): st.append((s2, nenv))
     return reached
+
+
+def split_generics(ty):
+    """'a::B<X, C<Y, Z>>' -> ('a::B', ['X', 'C<Y, Z>'])"""
+    i = ty.find("<")
+    if i < 0 or not ty.endswith(">"): return ty, []
+    head, inner = ty[:i], ty[i + 1:-1]
+    args = []; depth = 0; cur = ""
+    for ch in inner:
+        if ch in "<([": depth += 1
+        elif ch in ">)]": depth -= 1
+        if ch == "," and depth == 0:
+            args.append(cur.strip()); cur = ""
+        else: cur += ch
+    if cur.strip(): args.append(cur.strip())
+    return head, args
+
+
+def place_type(body, place):
+    """type string of a place that projects through references and Result / Option payloads (`((*_9) as Ok).0`); None when it cannot be derived"""
+    ty = body.locals[place["l"]]["ty"]
+    variant = None
+    for el in place["p"]:
+        if el == "*":
+            ty = ty[5:] if ty.startswith("&mut ") else ty[1:] if ty.startswith("&") else None
+            if ty is None: return None
+        elif el[0] == "d":
+            variant = el[1]
+        elif el[0] == "f":
+            head, args = split_generics(ty)
+            if head == "std::result::Result" and len(args) == 2 and variant in ("Ok", "Err", 0, 1):
+                ty = args[0] if variant in ("Ok", 0) else args[1]
+            elif head == "std::option::Option" and len(args) == 1:
+                ty = args[0]
+            else:
+                return None
+            variant = None
+        else:
+            return None
+    return ty
+
+
+def variant_edges_place(body, b):
+    """like variant_edges, for a discriminant read of any place: (place, type string or None, {variant idx: target}, otherwise)"""
+    t = body.term(b)
+    if t[0] != "Switch": return None
+    l = op_local(t[1])
+    if l is None: return None
+    d = body.single_def(l)
+    if not d or d[2][0] != "Discr": return None
+    return (d[2][1], place_type(body, d[2][1]), {v: tg for (v, tg) in t[2]}, t[3])
